@@ -240,6 +240,7 @@ func (e *exec) sr() {
 		at time.Duration
 	}
 	var required, allowed []req
+	arrivals := map[key][]time.Duration{} // ArduPilot heartbeats per sender, in time order
 	now := time.Duration(0)
 	seq := byte(0)
 	for i := 0; i < p.Depth; i++ {
@@ -273,6 +274,7 @@ func (e *exec) sr() {
 		seq++
 		if src.hb && src.ap == 3 && p.Dialect == "std" && !p.Disable {
 			k := key{src.ch, src.sys, src.comp}
+			arrivals[k] = append(arrivals[k], now)
 			t, seen := last[k]
 			if !seen {
 				required = append(required, req{k, now})
@@ -299,71 +301,91 @@ func (e *exec) sr() {
 		if pr := sx.CheckOriginated(frames, 10, 1, true, nil, 0); pr != "" {
 			e.fail("c%d: %s", ci, pr)
 		}
-		if len(frames)%7 != 0 {
-			e.fail("c%d: %d request frames, not a multiple of seven", ci, len(frames))
-			continue
-		}
-		for g := 0; g+7 <= len(frames); g += 7 {
-			var tsys, tcomp byte
-			var streams map[uint64]bool
-			for j := 0; j < 7; j++ {
-				f := frames[g+j]
-				if f.ID != 66 {
-					e.fail("c%d: frame %d has id %d, want REQUEST_DATA_STREAM", ci, g+j, f.ID)
-					continue
-				}
-				d := sx.DefByID(66)
-				vals, _ := d.Decode(f.Payload, true)
-				v := map[string]uint64{}
-				for fi, fd := range d.Fields {
-					v[fd.Name] = vals[fi].Bits[0]
-				}
-				// the statement names the set of seven streams, not an order
-				if j == 0 {
-					streams = map[uint64]bool{}
-				}
-				if streams[v["req_stream_id"]] {
-					e.fail("c%d: stream %d requested twice in one group", ci, v["req_stream_id"])
-				}
-				streams[v["req_stream_id"]] = true
-				if !map[uint64]bool{1: true, 2: true, 3: true, 6: true, 10: true, 11: true, 12: true}[v["req_stream_id"]] || v["req_message_rate"] != 7 || v["start_stop"] != 1 {
-					e.fail("c%d: request %d of the group is %v, want one of the streams 1,2,3,6,10,11,12 at rate 7 start 1", ci, j, v)
-				}
-				if j == 0 {
-					tsys, tcomp = byte(v["target_system"]), byte(v["target_component"])
-				} else if byte(v["target_system"]) != tsys || byte(v["target_component"]) != tcomp {
-					e.fail("c%d: the seven requests of one group address different targets", ci)
-				}
-				if ts[g+j] != ts[g] {
-					e.fail("c%d: the seven requests were not sent together", ci)
-				}
+		// request frames are grouped per target (system, component): every seven consecutive
+		// requests to one target form a group with the seven streams, each once, in any order;
+		// the time of the group is the time of its first frame (the requests of a group need
+		// not be written at one instant, and groups for different targets may interleave)
+		type tk struct{ sys, comp byte }
+		cur := map[tk][]int{}
+		var order []tk
+		for fi, f := range frames {
+			if f.ID != 66 {
+				e.fail("c%d: frame %d has id %d, want REQUEST_DATA_STREAM", ci, fi, f.ID)
+				continue
 			}
-			got = append(got, obs{key{ci, tsys, tcomp}, ts[g]})
+			d := sx.DefByID(66)
+			vals, _ := d.Decode(f.Payload, true)
+			v := map[string]uint64{}
+			for k, fd := range d.Fields {
+				v[fd.Name] = vals[k].Bits[0]
+			}
+			if !map[uint64]bool{1: true, 2: true, 3: true, 6: true, 10: true, 11: true, 12: true}[v["req_stream_id"]] || v["req_message_rate"] != 7 || v["start_stop"] != 1 {
+				e.fail("c%d: request %d is %v, want one of the streams 1,2,3,6,10,11,12 at rate 7 start 1", ci, fi, v)
+			}
+			k := tk{byte(v["target_system"]), byte(v["target_component"])}
+			if _, ok := cur[k]; !ok {
+				order = append(order, k)
+			}
+			cur[k] = append(cur[k], fi)
 		}
-	}
-	// every required request happened (on the sender's channel, addressed to the sender), every
-	// observed request is required or allowed
-	used := make([]bool, len(got))
-	match := func(r req) bool {
-		for i, g := range got {
-			if !used[i] && g.k == r.k && g.at == r.at {
-				used[i] = true
-				return true
+		for _, k := range order {
+			idx := cur[k]
+			if len(idx)%7 != 0 {
+				e.fail("c%d: %d requests to sys=%d comp=%d, not a multiple of seven", ci, len(idx), k.sys, k.comp)
+				continue
+			}
+			for g := 0; g+7 <= len(idx); g += 7 {
+				streams := map[uint64]bool{}
+				for _, fi := range idx[g : g+7] {
+					d := sx.DefByID(66)
+					vals, _ := d.Decode(frames[fi].Payload, true)
+					for x, fd := range d.Fields {
+						if fd.Name == "req_stream_id" {
+							if streams[vals[x].Bits[0]] {
+								e.fail("c%d: stream %d requested twice in one group for sys=%d comp=%d", ci, vals[x].Bits[0], k.sys, k.comp)
+							}
+							streams[vals[x].Bits[0]] = true
+						}
+					}
+				}
+				got = append(got, obs{key{ci, k.sys, k.comp}, ts[idx[g]]})
 			}
 		}
-		return false
 	}
-	for _, r := range required {
-		if !match(r) {
-			e.fail("first ArduPilot heartbeat from c%d sys=%d comp=%d at %v did not trigger the seven stream requests on that channel (observed %v)", r.k.ch, r.k.sys, r.k.comp, r.at, got)
+	// Oracle on the observed request groups per sender (times are those of the first frame of a
+	// group; the node may take a moment - pacing, a busy reader - between reading a heartbeat and
+	// sending, so nothing is compared with the arrival instant exactly):
+	//  1. a sender's first ArduPilot heartbeat is answered (a group within 5 s after it);
+	//  2. every group follows an ArduPilot heartbeat of that sender on that channel by < 5 s;
+	//  3. two groups for one sender are at least 30 s apart;
+	//  4. senders without ArduPilot heartbeats get nothing.
+	_, _ = required, allowed
+	const slack = 5 * time.Second
+	groups := map[key][]time.Duration{}
+	for _, g := range got {
+		groups[g.k] = append(groups[g.k], g.at)
+	}
+	for k, as := range arrivals {
+		gs := groups[k]
+		if len(gs) == 0 || gs[0] < as[0] || gs[0] >= as[0]+slack {
+			e.fail("first ArduPilot heartbeat from c%d sys=%d comp=%d at %v did not trigger the seven stream requests on that channel (groups for this sender at %v; all observed %v)", k.ch, k.sys, k.comp, as[0], gs, got)
 		}
 	}
-	for _, r := range allowed {
-		match(r)
-	}
-	for i, g := range got {
-		if !used[i] {
-			e.fail("stream requests to c%d sys=%d comp=%d at %v: not triggered by a first ArduPilot heartbeat and repeated within 30 s (required %v, allowed %v)", g.k.ch, g.k.sys, g.k.comp, g.at, required, allowed)
+	for k, gs := range groups {
+		as := arrivals[k]
+		for i, g := range gs {
+			triggered := false
+			for _, a := range as {
+				if a <= g && g-a < slack {
+					triggered = true
+				}
+			}
+			if !triggered {
+				e.fail("stream requests to c%d sys=%d comp=%d at %v: no ArduPilot heartbeat of that sender arrived on that channel in the %v before (arrivals %v)", k.ch, k.sys, k.comp, g, slack, as)
+			}
+			if i > 0 && g-gs[i-1] < 30*time.Second {
+				e.fail("stream requests to c%d sys=%d comp=%d repeated after %v (at %v and %v): not repeated for that sender within 30 s", k.ch, k.sys, k.comp, g-gs[i-1], gs[i-1], g)
+			}
 		}
 	}
 	// one stream-requested event per group
